@@ -2757,3 +2757,107 @@ func init() {
 			return out
 		}})
 }
+
+// ---- EQLEN
+//
+// A comparison or element-wise combination of two sequences that walks one of them and indexes the other with the same
+// index is only right when the two have the same length. `Equal` on vectors and matrices is the oracle the library
+// (and its tests) use to decide that a copy or a decoded object is the same as the original: without a length test a
+// prefix equals the whole (true for the shorter receiver, index panic for the longer).
+//
+// Rule: in every method named Equal, a `for … range A` loop whose body indexes another operand B of the same slice type
+// with the loop index is accompanied, in the same function, by a comparison of len(A) and len(B).
+
+func scanEqLen(c *core.Ctx) []ob {
+	var out []ob
+	n := 0
+	c.FuncDecls(func(pk *packages.Package, file *ast.File, fd *ast.FuncDecl) {
+		if fd.Body == nil || fd.Name.Name != "Equal" || fileIsTestSupport(c.Program, fd.Pos()) || inExamples(pk) {
+			return
+		}
+		info := pk.TypesInfo
+		fkey := core.FuncKey(pk, fd)
+		lenCompared := func(a, b string) bool {
+			found := false
+			ast.Inspect(fd.Body, func(x ast.Node) bool {
+				be, ok := x.(*ast.BinaryExpr)
+				if !ok || (be.Op != token.EQL && be.Op != token.NEQ) {
+					return true
+				}
+				l, r := exprString(be.X), exprString(be.Y)
+				if (l == "len("+a+")" && r == "len("+b+")") || (l == "len("+b+")" && r == "len("+a+")") {
+					found = true
+				}
+				return true
+			})
+			return found
+		}
+		ast.Inspect(fd.Body, func(x ast.Node) bool {
+			rs, ok := x.(*ast.RangeStmt)
+			if !ok || rs.Key == nil {
+				return true
+			}
+			key := identObj(info, rs.Key)
+			if key == nil {
+				return true
+			}
+			ta := info.TypeOf(rs.X)
+			if ta == nil {
+				return true
+			}
+			if _, isSlice := ta.Underlying().(*types.Slice); !isSlice {
+				return true
+			}
+			a := exprString(unparen(rs.X))
+			seen := map[string]bool{}
+			ast.Inspect(rs.Body, func(y ast.Node) bool {
+				ie, ok := y.(*ast.IndexExpr)
+				if !ok || identObj(info, ie.Index) != key {
+					return true
+				}
+				b := exprString(unparen(ie.X))
+				if b == a || seen[b] {
+					return true
+				}
+				tb := info.TypeOf(ie.X)
+				if tb == nil || !types.Identical(ta, tb) {
+					return true
+				}
+				seen[b] = true
+				n++
+				k := fmt.Sprintf("EQLEN:%s#%s/%s", fkey, a, b)
+				if lenCompared(a, b) {
+					out = append(out, withProps(okOb("EQLEN", k, c.Rel(rs.Pos()), "the lengths of the two sequences are compared", true), eqLenProps(fkey)...))
+				} else {
+					out = append(out, withProps(violOb("EQLEN", k, c.Rel(rs.Pos()), fmt.Sprintf("%s walks %s and indexes %s with the same index without comparing their lengths: a shorter %s equals any longer %s that starts with it, and a longer one panics", fkey, a, b, a, b)), eqLenProps(fkey)...))
+				}
+				return true
+			})
+			return true
+		})
+	})
+	c.Stats["eqlen_loops"] = n
+	return out
+}
+
+func eqLenProps(fkey string) []string {
+	if strings.HasPrefix(fkey, "utils/structs") || strings.HasPrefix(fkey, "utils/buffer") {
+		return []string{"C08", "C10"}
+	}
+	return []string{"C10"}
+}
+
+func init() {
+	core.Register(&core.Rule{Name: "EQLEN", Props: []string{"C08", "C10"},
+		Doc: "in every Equal method, a loop over one sequence that indexes another operand of the same slice type with the loop index is accompanied by a comparison of the two lengths",
+		Run: func(c *core.Ctx) []ob {
+			out := scanEqLen(c)
+			for _, o := range control(c, "EQLEN", scanEqLen, "lvfixture.(seqT).Equal") {
+				out = append(out, withProps(o, "C08", "C10"))
+			}
+			for _, o := range core.Floor("EQLEN", nil, "element-wise loops in Equal methods", c.Stats["eqlen_loops"], 2) {
+				out = append(out, withProps(o, "C08", "C10"))
+			}
+			return out
+		}})
+}
